@@ -5,6 +5,8 @@ flipped are rejected with the expected clause.
     /venv/bin/python -m pv.c24_demo          (from /verif/harness)
 '''
 import copy
+import json
+import os
 import shutil
 import sys
 
@@ -78,8 +80,6 @@ def main():
             bad += not ok
             print(f"{'rejected' if ok else 'NOT REJECTED'}: {what}: {sorted(got)}")
         # single-case replay configuration: the property as a TLC invariant
-        import json
-        import os
         path = os.path.join(tmp, "replay.json")
         with open(path, "w") as f:
             json.dump([batch[0]], f)
